@@ -1168,6 +1168,12 @@ func verifyGitObjectAndAttestations(ctx context.Context, policy *State, target s
 		// Verify tag object's signature as well
 		tagObjVerified := false
 		for _, verifier := range verifiers {
+			if verifier.verifyExhaustively && len(verifiers) > 1 {
+				// The exhaustive verifier never fails, it cannot vouch for
+				// the tag object when rules protect the namespace
+				continue
+			}
+
 			// explicitly not looking at the attestation
 			// that applies to the _push_
 			// thus, we also set threshold to 1
@@ -1306,8 +1312,27 @@ func verifyGitObjectAndAttestationsUsingVerifiers(ctx context.Context, verifiers
 		verifiedUsing                       string
 		acceptedPrincipalIDs                *set.Set[string]
 		rslEntrySignatureNeededForThreshold bool
+
+		// authenticatedPrincipalIDs is every principal the exhaustive
+		// verifier could authenticate, used to evaluate global rules
+		authenticatedPrincipalIDs *set.Set[string]
+		hasSpecificVerifier       bool
 	)
 	for _, verifier := range verifiers {
+		if verifier.verifyExhaustively {
+			// The exhaustive verifier exists so that global rules can count
+			// all authenticated principals. It never fails, so it must not
+			// stand in for the verifiers of the rules that protect the
+			// namespace: it only collects.
+			usedPrincipalIDs, err := verifier.Verify(ctx, gitID, authorizationAttestation)
+			if err != nil && !errors.Is(err, ErrVerifierConditionsUnmet) {
+				return "", nil, false, err
+			}
+			authenticatedPrincipalIDs = usedPrincipalIDs
+			continue
+		}
+		hasSpecificVerifier = true
+
 		trustedPrincipalIDs := verifier.TrustedPrincipalIDs()
 
 		usedPrincipalIDs, err := verifier.Verify(ctx, gitID, authorizationAttestation)
@@ -1384,7 +1409,18 @@ func verifyGitObjectAndAttestationsUsingVerifiers(ctx context.Context, verifiers
 		}
 	}
 
+	if !hasSpecificVerifier && authenticatedPrincipalIDs != nil {
+		// No rule protects the namespace, only global rules apply. No
+		// verifier name is reported, as it is used to skip verification of
+		// other paths the same verifier is trusted for.
+		return "", authenticatedPrincipalIDs, false, nil
+	}
+
 	if verifiedUsing != "" {
+		if authenticatedPrincipalIDs != nil {
+			authenticatedPrincipalIDs.Extend(acceptedPrincipalIDs)
+			acceptedPrincipalIDs = authenticatedPrincipalIDs
+		}
 		return verifiedUsing, acceptedPrincipalIDs, rslEntrySignatureNeededForThreshold, nil
 	}
 
